@@ -30,13 +30,14 @@ ASSUMPTIONS = [
     "the centroid-to-centroid vector is taken from the later to the earlier residue in file order (the reading of the design phase, spec function cvec / oracle "
     "geom_o.stacking_expected); 'upward'/'inward' when the earlier residue is the lower one, 'downward'/'outward' otherwise",
     "definitional lemmas (explicit definitions of abbreviations, not proved): first_idx_definition (least index of an atom name, -1 if absent), "
-    "centroid_definition (cnt_base = number of pinned base heavy atoms found, n * centroid = sum of their coordinates), vangle_definition (angle = arccos of the "
+    "base_prefix_zero / base_prefix_step (count and coordinate sums of the found atoms among the first k pinned base atom names, by primitive recursion on k), "
+    "centroid_definition (cnt_base = that count over all names, cnt_base * centroid = those sums), vangle_definition (angle = arccos of the "
     "normalised dot product; angle_between_vectors is proved to return it), residue_order_definition (rlt = lexicographic order of (model, chain, number, icode or ' '); "
     "Residue3D.__lt__ is proved to return it)",
     "BASE_ATOMS is compared with the pinned table spec/tables.py BASE_ATOMS through the centroid definition (an edited entry changes the obligations of loop 1)",
 ]
 EXPLANATION = (
-    "Deductive (pyvc, SMT): find_stackings is under contract as a whole (4 loops, ghost index lists SRC0/POS0/SRC2/POS2 and the ghost permutation of sorted()). "
+    "Deductive (pyvc, SMT): find_stackings is under contract as a whole (4 loops, ghost index lists SRC0/SRC2/POS2 and the ghost permutation SORTED_PI/SORTED_PINV of sorted()). "
     "Top-level clauses, transcribed from the property text: (1) every reported Stacking is built from two participating residues a < b (file order) that satisfy the "
     "definition with thresholds + EPS - centroids within 6 A, normals within 35 deg of parallel or antiparallel (angle(n_a, n_b) <= 35 or angle(-n_a, n_b) <= 35), "
     "centroid-to-centroid vector within 45 deg of one of the normals - lists the lower residue first and is labelled upward/downward when the normals point the same "
